@@ -17,9 +17,10 @@ type lifts struct {
 	share         bool // D10
 	labels        bool // D5
 	throw         bool // D13
+	bytes         bool // O1 (findings_opt/O1-optbytes.txt)
 }
 
-var liftNames = []string{"optmerge-inverted", "optshare", "optlabels", "optthrow"}
+var liftNames = []string{"optmerge-inverted", "optshare", "optlabels", "optthrow", "optbytes"}
 
 func (l *lifts) set(name string) bool {
 	switch name {
@@ -31,6 +32,8 @@ func (l *lifts) set(name string) bool {
 		l.labels = true
 	case "optthrow":
 		l.throw = true
+	case "optbytes":
+		l.bytes = true
 	default:
 		return false
 	}
@@ -213,6 +216,21 @@ func (s *shaper) mergeChoice() ast.Expression {
 // mergeSeq is the shape that the optimizer combines into one literal.
 func (s *shaper) mergeSeq() ast.Expression {
 	e := ast.NewSeqExpr(ast.Pos{})
+	if s.lf.bytes && s.r.Intn(3) == 0 {
+		// O1: the encoding of one character split over two literals. Each
+		// half only matches invalid input bytes (or U+FFFD), the
+		// concatenation matches the character.
+		enc := []string{"é", "ж", "世", "😀"}[s.r.Intn(4)]
+		cut := 1 + s.r.Intn(len(enc)-1)
+		a, b := enc[:cut], enc[cut:]
+		if s.r.Intn(2) == 0 {
+			a = string(s.rune1()) + a
+		} else {
+			b += string(s.rune1())
+		}
+		e.Exprs = []ast.Expression{ast.NewLitMatcher(ast.Pos{}, a), ast.NewLitMatcher(ast.Pos{}, b)}
+		return e
+	}
 	n := 2 + s.r.Intn(3)
 	for i := 0; i < n; i++ {
 		switch x := s.r.Intn(12); {
